@@ -4,11 +4,17 @@
 // Files: model.go (set-of-states bounded FIFO reference model with the trigger predicates and
 // predicted shapes of the two recorded findings), seq.go (generator, execution of sequential
 // histories with restarts and crashes against the real sequencer, shrinker), conc.go
-// (concurrent clients, porcupine, conservation).
+// (concurrent clients, porcupine, conservation), fault.go (directed histories that put a process
+// death at every durable write of one operation; observation of datastore writes that fail while
+// the process survives).
+//
+// All deciding oracles are stated at the sequencer's interface (what is handed out, by the running
+// process and by one restarted over the same database); database keys and bytes are evidence.
 package c10
 
 import (
 	"fmt"
+	"runtime/debug"
 	"strings"
 	"sync"
 
@@ -23,6 +29,21 @@ type reporter struct {
 	r    *vk.Run
 	mu   sync.Mutex
 	seen map[string]int
+	max  map[string]int64
+}
+
+// guarded runs one case; a panic of the code under test becomes a `no-panic` violation (vk.Guard)
+// instead of killing the check. The report is made under the output lock of this package.
+func guarded(r *vk.Run, desc any, f func()) {
+	defer func() {
+		if p := recover(); p != nil {
+			stack := string(debug.Stack())
+			reporting(func() {
+				r.Guard(map[string]any{"case": desc, "stack_of_the_panic": stack}, func() { panic(p) })
+			})
+		}
+	}()
+	f()
 }
 
 // limit returns true while fewer than n reports with this signature were made.
@@ -37,6 +58,17 @@ func (rp *reporter) seq(h History, v *Verdict) {
 	r := rp.r
 	for c, n := range v.hits {
 		r.HitN(c, n)
+	}
+	for c, n := range v.counts {
+		if strings.HasPrefix(c, "max_") {
+			rp.mu.Lock()
+			if n > rp.max[c] {
+				rp.max[c] = n
+			}
+			rp.mu.Unlock()
+			continue
+		}
+		r.Count(c, n)
 	}
 	r.Count("ops_executed", int64(len(v.Trace)))
 	r.Count("restarts", int64(v.nRest))
@@ -54,8 +86,8 @@ func (rp *reporter) seq(h History, v *Verdict) {
 	case "inconclusive":
 		r.Inconclusive(fmt.Sprintf("sequential history %d: %s", h.ID, v.Detail))
 	case "finding":
-		if h.Region == "clean" {
-			// cannot happen: no trigger point exists in a clean history
+		if h.Region == "clean" || h.Region == "legacy" {
+			// cannot happen: no trigger point exists in a clean history, none is forked with legacy records
 			rp.violation(h, v, "fifo-model", "deviation flagged in a history without trigger point: "+v.Detail)
 			return
 		}
@@ -98,7 +130,7 @@ func (rp *reporter) violation(h History, v *Verdict, clause, detail string) {
 	w := witness(small, sv)
 	w["original_history"] = h
 	reporting(func() {
-		rp.r.Violation(clause, fmt.Sprintf("region=%s bound=%d history=[%s]: %s", h.Region, small.Bound, strings.Join(opStrings(small.Ops), ", "), detail), w)
+		rp.r.Violation(clause, fmt.Sprintf("region=%s bound=%d legacy-records=%v history=[%s]: %s", h.Region, small.Bound, small.Legacy, strings.Join(opStrings(small.Ops), ", "), detail), w)
 	})
 }
 
@@ -151,7 +183,7 @@ func pool(n int, f func(i int)) {
 // Run is the check entry point.
 func Run(r *vk.Run) {
 	world.Silence()
-	r.Rule = "sequential: seeded histories of 20-80 operations {submit(batch from the alphabet z|a|m, or unique) | submit empty/nil | submit foreign chain id | next | restart | submit/next cut by a crash or followed by one} on the real single sequencer over MemDS, queue bound 1|2|5|unbounded, then drain + restart; " +
+	r.Rule = "sequential: seeded histories of 20-80 operations {submit(batch from the alphabet z|a|m, or unique) | submit empty/nil | submit foreign chain id | next | restart | submit/next during which the process dies at its 1st, 2nd or 3rd durable write (or right after the operation if it makes fewer)} on the real single sequencer over MemDS, queue bound 1|2|5|unbounded, then drain + restart; one in ten histories starts on a database holding 1-3 records of the version before the sequence-numbered keys; 420 directed histories put the death at write 1|2|3 of a submit / next into fixed small contexts; " +
 		"non-trivial = >= 1 rejected, restarted or crashed operation; distinct by (region, bound, operation-kind sequence). " +
 		"concurrent: 2-6 client goroutines with unique batch ids, <= 60 recorded operations; always non-trivial; distinct by hash of the recorded history (client, op, output, call, return). " +
 		"Regions: clean = no restart is a trigger point (no tainted content queued, <= 1 batch queued); content-hash-key = trigger A holds at some restart; reload-order = trigger B holds and A never."
@@ -159,12 +191,15 @@ func Run(r *vk.Run) {
 	r.Assume("the output of an operation cut by a crash is seen by nobody; the model allows both outcomes for it")
 	r.Assume("the real queue prints a failed durable delete with fmt.Printf; around a GetNextBatch that is cut by a crash the process-wide stdout is pointed at /dev/null (all reporting of this check is serialised with that)")
 	r.Assume("concurrent histories are time-stamped by one atomic counter taken before the call and after the return")
-	rp := &reporter{r: r, seen: map[string]int{}}
+	r.Assume("a rejected submission 'leaves no trace' is judged by behaviour: a sequencer restarted on the database after the call hands out what one restarted on the database before the call hands out; the queue bound is judged at the interface (accepted-and-not-handed-out count of the model); database keys and bytes are evidence only")
+	r.Assume("datastore writes that fail while the process survives are outside the quantifier (it names crashes): observed (write_fault_observations), not judged")
+	rp := &reporter{r: r, seen: map[string]int{}, max: map[string]int64{}}
 
 	nSeq := r.N(3000, 100000)
 	nClean := nSeq * 6 / 10
 	nA := nSeq * 2 / 10
-	nB := nSeq - nClean - nA
+	nLegacy := nSeq / 10
+	nB := nSeq - nClean - nA - nLegacy
 	nConc := r.N(400, 6000)
 
 	// the case lists are a function of the seed only
@@ -181,6 +216,11 @@ func Run(r *vk.Run) {
 	for i := 0; i < nB; i++ {
 		regB = append(regB, genSeq(rng, nClean+nA+i, "reload-order"))
 	}
+	legacy := make([]History, nLegacy)
+	for i := range legacy {
+		legacy[i] = genSeq(rng, nSeq+i, "legacy")
+	}
+	templates := crashTemplates()
 	crng := r.Rand("concurrent")
 	conc := make([]CHistory, nConc)
 	for i := range conc {
@@ -190,6 +230,10 @@ func Run(r *vk.Run) {
 	r.Require("fifo-model", int64(nClean*10))
 	r.Require("delivery", int64(nClean*3))
 	r.Require("no-trace", int64(nClean))
+	r.Require("foreign-rejected", int64(nClean))
+	r.Require("empty-submission", int64(nClean/2))
+	r.Require("legacy-records-first", int64(nLegacy*9/10))
+	r.Require("write-fault-observed", 12)
 	r.Require("restart-continuity", int64(nClean/4))
 	r.Require("crash-atomicity", int64(nClean/4))
 	r.Require("bound", int64(nClean))
@@ -198,14 +242,21 @@ func Run(r *vk.Run) {
 	r.Require("conservation", int64(nConc*8/10))
 
 	// 1. clean region: every failure is a violation
-	pool(len(clean), func(i int) { rp.seq(clean[i], Judge(clean[i])) })
+	pool(len(clean), func(i int) { guarded(r, clean[i], func() { rp.seq(clean[i], Judge(clean[i])) }) })
+	pool(len(templates), func(i int) { guarded(r, templates[i], func() { rp.seq(templates[i], Judge(templates[i])) }) })
+	pool(len(legacy), func(i int) { guarded(r, legacy[i], func() { rp.seq(legacy[i], Judge(legacy[i])) }) })
+	guarded(r, "write-fault probes", func() { writeFaultProbes(r) })
 
 	// 2. concurrent histories (unique ids: outside both trigger regions)
 	var cmu sync.Mutex
 	opsTotal := 0
 	pool(len(conc), func(i int) {
 		h := conc[i]
-		v := JudgeConc(h)
+		var v *CVerdict
+		guarded(r, h, func() { v = JudgeConc(h) })
+		if v == nil {
+			return
+		}
 		for c, n := range v.hits {
 			r.HitN(c, n)
 		}
@@ -213,7 +264,13 @@ func Run(r *vk.Run) {
 		opsTotal += v.nOps
 		cmu.Unlock()
 		r.Count("concurrent_ops_overlapping_another_client", int64(v.overlap))
-		r.Count("concurrent_rejected_full", int64(v.nFull))
+		r.Count("concurrent_rejected", int64(v.nFull))
+		r.Count("rejections_carrying_ErrQueueFull", int64(v.nFullIdentity))
+		rp.mu.Lock()
+		if int64(v.keys) > rp.max["max_keys_in_database_after_concurrent_phase"] {
+			rp.max["max_keys_in_database_after_concurrent_phase"] = int64(v.keys)
+		}
+		rp.mu.Unlock()
 		r.Count("histories_concurrent", 1)
 		r.Eval("conc:"+v.sig, true, map[string]any{"clients": len(h.Clients), "queue_bound": h.Bound, "restart_before_drain": h.Restart, "records": v.Records, "drain": v.Drain})
 		switch v.Kind {
@@ -234,9 +291,13 @@ func Run(r *vk.Run) {
 	// 3. trigger regions, exercised separately
 	// (the directed smallest histories first, so that they are the ones reported)
 	for _, h := range append(regA[:3:3], regB[:2]...) {
-		rp.seq(h, Judge(h))
+		h := h
+		guarded(r, h, func() { rp.seq(h, Judge(h)) })
 	}
 	regA, regB = regA[3:], regB[2:]
-	pool(len(regA), func(i int) { rp.seq(regA[i], Judge(regA[i])) })
-	pool(len(regB), func(i int) { rp.seq(regB[i], Judge(regB[i])) })
+	pool(len(regA), func(i int) { guarded(r, regA[i], func() { rp.seq(regA[i], Judge(regA[i])) }) })
+	pool(len(regB), func(i int) { guarded(r, regB[i], func() { rp.seq(regB[i], Judge(regB[i])) }) })
+	for k, n := range rp.max {
+		r.Set(k, n)
+	}
 }
